@@ -289,6 +289,12 @@ def check_C07(chk):
                                                 MaxPending="= 1", MaxCancel="= 1", MaxWrites="= 1", WLens="<- W8", EmSmallFills="= 0",
                                                 EmPong="<- S13", EmWacc="<- None"), timeout=600)
     replay(chk, nd, chk.seed + 3)
+    # a transport that queues writes (the websocket one): the reply has only left when the transport was flushed - behaviours in
+    # which the socket is blocked while the reply is on its way, with Pending flushes and cancelled reads (see C20)
+    nd, n = emit(chk, "c07_emit_bp", consts(Transports="<- TWs", Classes="<- ClsKa", Flavors="<- OnlyTokio", Verifies="<- GateOn", MaxFrames="= 1",
+                                            FrameOK="<- FrameReal", MaxWrites="= 1", WLens="<- W8", MaxBlock="= 1", MaxPending="= 1", MaxCancel="= 1",
+                                            MaxQueued="= 1", EmSmallFills="= 3", EmSizes="<- S134", EmBp="= TRUE"), timeout=900)
+    replay(chk, nd, chk.seed + 4, wsq=True)
     p = os.path.join(WORK, "c07_sweep.ndjson")
     out = harness(["conn-sweep", "--what", "tiny", "--out", p, "--seed", str(chk.seed), "--half", "0" if thorough else "1"])
     chk.extra["sweep"] = json.loads(out.strip().splitlines()[-1])
